@@ -1,6 +1,7 @@
 """C10 — a declaration either fails cleanly or yields a self-consistent schema."""
 import itertools
 
+from ..common import safe_repr
 from .. import declcorr, gen_chain as GC, runner
 from ..common import d42  # noqa: F401
 from niltype import Nil
@@ -45,22 +46,22 @@ def fixed_value(s):
 
 
 def snapshot(s):
-    return (repr(s), {k: repr(s.props.get(k)) for k in s.props})
+    return (safe_repr(s), {k: safe_repr(s.props.get(k)) for k in s.props})
 
 
 def oracle(ctx, c):
-    ctx.case((c.facade, repr(c.ops)), len(c.ops) >= 2)
+    ctx.case((c.facade, safe_repr(c.ops)), len(c.ops) >= 2)
     for recv, op, (kind, res) in c.trace:
         ctx.count("calls")
         ctx.count("method:%s.%s" % (c.facade, op[0]))
-        info = dict(receiver=repr(recv), call=repr(op), facade=c.facade, py_schema=recv if kind == "exc" else res)
+        info = dict(receiver=safe_repr(recv), call=safe_repr(op), facade=c.facade, py_schema=recv if kind == "exc" else res)
         if kind == "exc":
             if isinstance(res, TypeError) and op[0] == "anycall" and len(op[1]) == 0:
                 ctx.count("arity_errors_ignored")
                 continue
             if not isinstance(res, DeclarationError):
                 ctx.violation("a declaration call raised %s (not DeclarationError)" % type(res).__name__,
-                              exception=repr(res), **info)
+                              exception=safe_repr(res), **info)
             continue
         ok, v = fixed_value(res)
         if ok:
@@ -70,18 +71,18 @@ def oracle(ctx, c):
             except Exception as e:  # noqa: BLE001
                 errs = [e]
             if errs:
-                ctx.violation("a declared schema rejects its own fixed value", result=repr(res), fixed=repr(v),
-                              errors=[repr(e) for e in errs[:3]], **info)
+                ctx.violation("a declared schema rejects its own fixed value", result=safe_repr(res), fixed=safe_repr(v),
+                              errors=[safe_repr(e) for e in errs[:3]], **info)
         # re-declaring what was just declared is rejected
         try:
             again = GC.apply_real(res, op)
-            ctx.violation("re-declaring an already declared property was accepted", result=repr(res), again=repr(again), **info)
+            ctx.violation("re-declaring an already declared property was accepted", result=safe_repr(res), again=safe_repr(again), **info)
         except DeclarationError:
             ctx.count("redeclare_rejected")
         except TypeError:
             pass
         except Exception as e:  # noqa: BLE001
-            ctx.violation("re-declaring raised %s" % type(e).__name__, result=repr(res), **info)
+            ctx.violation("re-declaring raised %s" % type(e).__name__, result=safe_repr(res), **info)
 
 
 def run(ctx):
@@ -94,6 +95,7 @@ def run(ctx):
     limits.huge_int_probe(ctx, "C10")
     limits.recursion_probe(ctx, "C10")
     limits.declaration_corner_probe(ctx)
+    limits.special_key_declaration_probe(ctx)
     cases = []
     for _ in range(ctx.n(3000, 30000)):
         facade, ops = GC.gen_chain(ctx.rnd, 4)
@@ -219,7 +221,7 @@ def run(ctx):
                      chain=f"schema.{c.facade}" + "".join(f".{m}{a!r}" for m, a in c.ops), detail=detail, request=c.req)
     ctx.cov["corr_disagreements"] = len(dis)
     for c in cases[:2000:400]:
-        ctx.sample({"chain": f"schema.{c.facade}" + "".join(f".{m}{a!r}" for m, a in c.ops), "outcome": repr(c.outcome)[:200]})
+        ctx.sample({"chain": f"schema.{c.facade}" + "".join(f".{m}{a!r}" for m, a in c.ops), "outcome": safe_repr(c.outcome)[:200]})
 
 
 def replay(path):
